@@ -9,6 +9,7 @@ class World:
         self.fn_index = {}
         self.adts = {}
         self.adt_discr = {}
+        self.ctors = {}
         self.values = {}
         for c in self.crates.values():
             for path, l in c.fns.items():
@@ -17,6 +18,10 @@ class World:
                 self.adts[path] = a
                 if a["kind"] == "Enum":
                     self.adt_discr[path] = {v["discr"]: v["name"] for v in a["variants"]}
+                    for v in a["variants"]:
+                        self.ctors[f"{path}::{v['name']}"] = (path, v["name"])
+                elif a["kind"] == "Struct":
+                    self.ctors[path] = (path, None)
             for path, v in c.values.items():
                 self.values[path] = v
 
